@@ -1,0 +1,29 @@
+//go:build verif
+
+// Contracts for govc (/verif): C16 "Transactions that validate together can always be finalized" — storage part, scoped as in
+// DESIGN.md §4 C16 (deposits, mints, transfers, withdrawal submissions and claims; node and custodian operations are out of scope).
+// Comment-only file. One contract per function: the C16 clauses of finalizeTransaction, writeTotalInAsset, writeAssetInfo, UnspentOutputs
+// (`nopanic when` conditions FinalizePre / TotalPre and the [c16-accepts] clauses) are in zz_contracts_c15_verif.go and
+// common/zz_contracts_c17_verif.go; those of lockGhostKey, writeUTXO, writeWithdrawalClaim in zz_contracts_c04_verif.go.
+
+package storage
+
+//@ uninterp WithdrawalKeyId(h mathint) mathint
+//@ axiom forall h mathint :: {WithdrawalKeyId(h)} keykind(WithdrawalKeyId(h)) == 16 && keyhid(WithdrawalKeyId(h)) == h
+//@ assume func graphWithdrawalClaimKey
+//@   modifies nothing
+//@   ensures fresh(result) && kvkey(result) == WithdrawalKeyId(kvval(tx))
+
+//@ -- ClaimPre: the submission a withdrawal claim refers to is stored and finalized (with a well-formed 32-byte record)
+//@ spec ClaimPre(t badger.Txn, ref crypto.Hash) bool = HasTx(t, ref) && Finalized(t, ref) && badger.vallen(badger.kvget(t, FK(ref))) == 32
+
+//@ func readTransactionAndFinalization
+//@   property C16
+//@   requires txn != nil
+//@   nopanic when Finalized(*txn, hash) ==> badger.vallen(badger.kvget(*txn, FK(hash))) == 32 -- it panics on a FINALIZATION record that is not 32 bytes long
+//@   modifies nothing
+//@   ensures [absent] !HasTx(*txn, hash) ==> result0 == nil && err == nil
+//@   ensures [present] HasTx(*txn, hash) && err == nil ==> result0 != nil
+//@   ensures [not-finalized] err == nil && !Finalized(*txn, hash) ==> len(result1) == 0
+//@   ensures [finalized] err == nil && result0 != nil && Finalized(*txn, hash) ==> len(result1) == 64
+//@   ensures [errors] err != nil ==> badger.iofail(err) || !TxValWf(badger.kvget(*txn, TK(hash)))
